@@ -223,13 +223,24 @@ pub fn item_definitions_xml(t: &serde_json::Value) -> (String, String) {
 /// `forward`: the definitions are written top-down, so that every reference points to a definition that comes LATER in
 /// the document (written bottom-up otherwise); the order of item definitions has no meaning.
 pub fn item_definitions_xml_in_order(t: &serde_json::Value, forward: bool) -> (String, String) {
+  item_definitions_xml_named(t, forward, false)
+}
+
+/// `type_like_names`: the definitions are named like built-in types written with other capitals (`Date`, `String`, ..):
+/// names are case-sensitive, so these are ordinary names of item definitions.
+pub fn item_definitions_xml_named(t: &serde_json::Value, forward: bool, type_like_names: bool) -> (String, String) {
   struct Gen {
     out: Vec<String>,
     n: usize,
+    type_like_names: bool,
   }
   impl Gen {
     fn fresh(&mut self) -> String {
       self.n += 1;
+      const LIKE: [&str; 8] = ["Date", "String", "Number", "Boolean", "Time", "DateTime", "ANY", "Null"];
+      if self.type_like_names && self.n <= LIKE.len() {
+        return LIKE[self.n - 1].to_string();
+      }
       format!("t{}", self.n)
     }
     fn av(&self, av: &str) -> String {
@@ -268,7 +279,7 @@ pub fn item_definitions_xml_in_order(t: &serde_json::Value, forward: bool) -> (S
       name
     }
   }
-  let mut g = Gen { out: vec![], n: 0 };
+  let mut g = Gen { out: vec![], n: 0, type_like_names };
   let top = g.define(t);
   if forward {
     g.out.reverse();
